@@ -1095,6 +1095,25 @@ def generate(unit, template_path, canary=False, extra_fns=(), drop_hints=()):
         if b[0] == "text":
             _, lines, start = b
             for k, ln in enumerate(lines):
+                if ln.strip().startswith("//@fields "):
+                    # guard for a hand-declared PROJECTION of a real struct (the template declares only the fields the extracted code
+                    # touches): `//@fields file | struct Name | field: Type; field: *` - the real struct must have each field with exactly
+                    # that type (`*` = any type: the template keeps it abstract). A mismatch means the projection no longer describes
+                    # the code that runs => anchor lost (undecided).
+                    segs = [x.strip() for x in ln.strip()[len("//@fields "):].split(" | ")]
+                    fsrc = get_src(segs[0])
+                    fa, fe = fsrc.find_item("struct", segs[1].split()[-1])
+                    ftext = re.sub(r"\s+", "", strip_attrs_and_docs(fsrc.text[fa:fe]))
+                    for fld in segs[2].split(";"):
+                        if not fld.strip():
+                            continue
+                        fname, ftype = [x.strip() for x in fld.split(":", 1)]
+                        mfl = re.search(r"[{,](?:pub(?:\([^)]*\))?)?" + re.escape(fname) + r":(.*?)(?=,(?:pub(?:\([^)]*\))?)?\w+:|,?}$)", ftext)
+                        if not mfl:
+                            raise AnchorLost(f"{segs[0]}: struct {segs[1]} has no field `{fname}` (declared projection in {trel} is stale)")
+                        if ftype != "*" and re.sub(r"\s+", "", ftype) != mfl.group(1):
+                            raise AnchorLost(f"{segs[0]}: field `{fname}` of {segs[1]} has type `{mfl.group(1)}`, the projection in {trel} declares `{ftype}`")
+                    g.rewrites.append({"rule": "R0", "where": f"{segs[0]}::{segs[1]}", "before": "struct declared as a projection in the template", "after": "fields checked against the real struct: " + segs[2]})
                 g.lines.append(ln)
                 g.linemap.append({"kind": "template", "file": trel, "line": start + k})
         elif b[0] == "item":
